@@ -13,6 +13,11 @@ def as_x(call):
     x = np.array(call["x"], dtype=float)
     if call.get("xi") is not None:
         x = x + 1j * np.array(call["xi"], dtype=float)
+    # the same (small-integer valued, hence exactly representable) samples handed over in single precision
+    if call.get("dtype") == "single":
+        x = x.astype(np.complex64 if np.iscomplexobj(x) else np.float32)
+    elif call.get("dtype") == "int":
+        x = x.astype(int) if not np.iscomplexobj(x) else x
     return x
 
 
